@@ -132,6 +132,7 @@ REGISTRY["C12"] = {
     "assumptions": ["a sub-process is activated at most once per instance in the main campaign (finding C12-F3, constructed around)"],
     "tests": [
         {"name": "TestC12Metamorphic", "checks": {"quick": 80, "thorough": 2500}, "shards": {"quick": 16, "thorough": 32}, "gomaxprocs": [4, 1, 2, 16]},
+        {"name": "TestC12MultiStart", "checks": {"quick": 250, "thorough": 6000}, "shards": {"quick": 8, "thorough": 16}, "gomaxprocs": [4, 16, 2, 1]},
         {"name": "TestC12Metamorphic", "label": "TestC12Metamorphic-unrestricted", "env": {"VERIF_UNRESTRICTED": "1"},
          "checks": {"quick": 60, "thorough": 1000}, "shards": {"quick": 4, "thorough": 8}},
     ],
